@@ -214,6 +214,32 @@ def bool_fact(a):
     return (t, val)
 
 
+def fold_bool(t):
+    """a boolean term with negations of constants folded: Not(true) -> false"""
+    neg = False
+    while t[0] == 'un' and t[1] == 'Not':
+        t, neg = t[2], not neg
+    if t[0] == 'const' and t[1] in ('true', 'false'):
+        return ('const', 'true' if (t[1] == 'true') != neg else 'false')
+    return ('un', 'Not', t) if neg else t
+
+
+def opt_truth(t):
+    """(option subject, 'Some'|'None') such that boolean term t is true exactly when the subject is that variant
+    (x.is_some(), x.is_none(), and their negations); None otherwise"""
+    neg = False
+    while t[0] == 'un' and t[1] == 'Not':
+        t, neg = t[2], not neg
+    if t[0] == 'call' and len(t[2]) == 1:
+        nm = norm_callee(t[1])
+        v = 'Some' if nm.endswith('Option::is_some') else 'None' if nm.endswith('Option::is_none') else None
+        if v:
+            if neg:
+                v = 'None' if v == 'Some' else 'Some'
+            return (t[2][0], v)
+    return None
+
+
 def site(fn, e):
     return f"{fn.b['file']}:{e.line if hasattr(e, 'line') else e}"
 
